@@ -683,10 +683,10 @@ func genC15H264(x *Ctx) {
 		}
 	}
 	// (a') a LARGE abandoned unit: the fragments of a unit whose end never arrives, totalling K-2
-	//      bytes for K = 2^16 (quick) and 2^16 … 2^20 (thorough), then an intact fragmented frame:
+	//      bytes for K = 2^16 and 2^20 (quick) and 2^16 … 2^20 (thorough), then an intact fragmented frame:
 	//      a bound on the reassembly buffer near K must not make the next start fragment fail or
 	//      lose bytes (seed C15-r2-3 used K = 1 MiB)
-	ks := []int{1 << 16}
+	ks := []int{1 << 16, 1 << 20}
 	if x.Thorough() {
 		ks = []int{1 << 16, 1 << 17, 1 << 18, 1 << 19, 1 << 20}
 	}
